@@ -110,5 +110,17 @@ package seq
 //@ func (*seqSorter).Swap(p, i, j)
 //@   prop C10
 //@   option frame=off
-//@   requires 0 <= i && i < len(p.seq) && 0 <= j && j < len(p.seq)
-//@   ensures Eq(p.seq[i], verifspec.Old(p.seq[j])) 
+//@   requires p != nil && p.ord != nil && 0 <= i && i < len(p.seq) && 0 <= j && j < len(p.seq)
+//@   ensures Eq(p.seq[i], Old(p.seq[j])) && Eq(p.seq[j], Old(p.seq[i]))
+//@   ensures forall k int :: 0 <= k && k < len(p.seq) && k != i && k != j ==> Eq(p.seq[k], Old(p.seq[k]))
+//@   ensures len(p.seq) == Old(len(p.seq))
+//
+//@ func (*seqSorter).Less(p, i, j) result
+//@   prop C10
+//@   requires p != nil && p.ord != nil && 0 <= i && i < len(p.seq) && 0 <= j && j < len(p.seq)
+//@   ensures result == p.ord.Less(p.seq[i], p.seq[j]) && Unchanged()
+//
+//@ func (*seqSorter).Len(p) result
+//@   prop C10
+//@   requires p != nil
+//@   ensures result == len(p.seq) && Unchanged()
